@@ -34,11 +34,44 @@ def main():
     rep = core.Report(pid, tier)
     try:
         gen_all()
-        return mod.run(rep, tier)
+        rc = mod.run(rep, tier)
     except Exception:  # the check itself failed: never report that as a pass
         traceback.print_exc()
         rep.broken("harness-crash", traceback.format_exc())
         return rep.finish() or 1
+    if rc == 0 and tier == "quick" and not os.environ.get("VERIF_NO_ESCALATE"):
+        rc = escalate(pid)
+    return rc
+
+
+def escalate(pid):
+    """The source differs from the tree the checks were last shown to pass on and the first pass found
+    nothing: widen the search by re-running the quick tier under further seeds of the single PRNG, within a
+    time budget.  This only ever ADDS explored inputs; a run that finds nothing still exits 0."""
+    import subprocess
+    import time
+    changed = core.changed_sources()
+    if not changed:
+        return 0
+    budget = float(os.environ.get("VERIF_ESCALATE_BUDGET", "200"))
+    extra = int(os.environ.get("VERIF_ESCALATE_SEEDS", "6"))
+    print("[%s] source differs from the recorded baseline in %s: widening the search (up to %d further seeds, %.0f s)"
+          % (pid, ", ".join(changed[:4]) + (" ..." if len(changed) > 4 else ""), extra, budget))
+    sys.stdout.flush()
+    t0 = time.time()
+    s0 = core.seed()
+    for k in range(1, extra + 1):
+        if time.time() - t0 > budget:
+            break
+        env = dict(os.environ, VERIF_SEED=str(s0 + 1000 * k), VERIF_NO_ESCALATE="1")
+        p = subprocess.run([sys.executable, "-m", "harness.main", pid, "--tier", "quick"], env=env,
+                           cwd=core.VERIF, capture_output=True, text=True)
+        out = [l for l in (p.stdout + p.stderr).split("\n") if l.startswith(("VIOLATION", "[" + pid))]
+        print("\n".join(out))
+        sys.stdout.flush()
+        if p.returncode != 0:
+            return p.returncode
+    return 0
 
 
 def gen_all():
